@@ -554,6 +554,7 @@ impl Check for SmartAccount {
         };
 
         for (i, s) in steps.iter().enumerate() {
+            let mut parked: Option<Violation> = None;
             LOG.with(|l| l.borrow_mut().clear());
             let now = w.now();
             let got: Option<bool> = match s {
@@ -621,7 +622,7 @@ impl Check for SmartAccount {
                         } else {
                             "complete.accepts_when_rule_met"
                         };
-                        return Err(violation(check, "probe", i, format!("real accepted={got} ({r:?}), model {want:?}; step {s:?}; now {}; rules {:?}; can {:?}; log {log:?}", w.now(), m.rules, m.can)));
+                        self.clause(st, &mut parked, violation(check, "probe", i, format!("real accepted={got} ({r:?}), model {want:?}; step {s:?}; now {}; rules {:?}; can {:?}; log {log:?}", w.now(), m.rules, m.can)))?;
                     }
                     if let Some(want_log) = want {
                         let mut real: std::vec::Vec<(u8, u32, u32)> = log.iter().filter(|x| x.1 == "enforce").map(|x| (x.0, x.2, x.3)).collect();
@@ -629,7 +630,7 @@ impl Check for SmartAccount {
                         real.sort();
                         wl.sort();
                         if real != wl {
-                            return Err(violation("enforce.exactly_chosen_once", "probe", i, format!("enforce calls {real:?}, expected {wl:?}; step {s:?}; rules {:?}", m.rules)));
+                            self.clause(st, &mut parked, violation("enforce.exactly_chosen_once", "probe", i, format!("enforce calls {real:?}, expected {wl:?}; step {s:?}; rules {:?}", m.rules)))?;
                         }
                     }
                     // signers passed to policies are always a subset of (rule signers ∩ supplied)
@@ -638,7 +639,7 @@ impl Check for SmartAccount {
                         if let Some(r) = m.rules.iter().find(|r| r.id == *rid) {
                             let inter = r.signers.iter().filter(|x| have.contains(x)).count() as u32;
                             if *n != inter {
-                                return Err(violation("signers.subset_of_rule", "probe", i, format!("policy saw {n} signers for rule {rid}, rule∩supplied = {inter}")));
+                                self.clause(st, &mut parked, violation("signers.subset_of_rule", "probe", i, format!("policy saw {n} signers for rule {rid}, rule∩supplied = {inter}")))?;
                             }
                         }
                     }
@@ -686,6 +687,9 @@ impl Check for SmartAccount {
             if m.rules.iter().any(|r| r.policies.len() == 5) { st.hit("probe.max_policies_reached"); }
             if ac.try_get_context_rule(&m.next_id).is_ok() {
                 return Err(violation("rules.ids_never_reused", "next_id", i, format!("rule id {} exists before being issued", m.next_id)));
+            }
+            if let Some(v) = parked.take() {
+                return Err(v);
             }
             st.state(&(m.rules.iter().map(|r| (r.ctype, r.signers.len(), r.policies.len(), r.until.map(|u| u >= m.now))).collect::<std::vec::Vec<_>>(),));
         }
